@@ -184,8 +184,14 @@ impl C10 {
                     };
                     // keep only programs the hooked in-process run and the reference agree on, and that
                     // stay clear of the recorded exception defects
-                    let d = run_diff(&prog, &[], &DiffCfg { fuel: 40_000_000, ..DiffCfg::default() }, &RefCfg { step_limit: 2_000_000, ..RefCfg::default() });
-                    if !matches!(d.verdict, DiffVerdict::Agree) || !trigger_suffix(&d.events).is_empty() {
+                    // swept objects are quarantined in this run, so that a collector fault cannot take the
+                    // harness process down; the runners of the matrix really free them
+                    let d = run_diff(&prog, &[], &DiffCfg { fuel: 40_000_000, quarantine: true, ..DiffCfg::default() }, &RefCfg { step_limit: 2_000_000, ..RefCfg::default() });
+                    // (a program on which this checked in-process run *disagrees* with the reference
+                    // interpreter is kept: on the unchanged tree there is none outside the recorded
+                    // shapes, and a fault that shows only in checked builds is exactly what the matrix
+                    // is for)
+                    if matches!(d.verdict, DiffVerdict::Discard(_)) || !trigger_suffix(&d.events).is_empty() {
                         if let Some(c) = ctx.as_deref_mut() {
                             c.label("filtered_out");
                         }
